@@ -396,7 +396,7 @@ func lruAlphabet() []lruOp {
 func lruCapacities() []uint64 {
 	e, s, m, l := lruSizes[0], lruSizes[1], lruSizes[2], lruSizes[3]
 	caps := []uint64{0, 1, e + 71, e + 72, s, s + 71, s + 72, s + 73, s + lruSlack, 2*s + 144, 2 * (s + lruSlack), 200,
-		s + m + 2*lruSlack, m + 72, 2*m + 2*lruSlack, l + lruSlack, l + s + 2*lruSlack, l + m + s + 3*lruSlack, 3 * (l + lruSlack), 1 << 30}
+		s + m + 2*lruSlack, m + 72, 2*m + 2*lruSlack, l + lruSlack, l + s + 2*lruSlack, l + m + s + 3*lruSlack, 3 * (l + lruSlack), 1 << 30, 1<<32 + 5, 1<<63 - 1, 1 << 63, ^uint64(0)}
 	sort.Slice(caps, func(i, j int) bool { return caps[i] < caps[j] })
 	var out []uint64
 	for i, c := range caps {
